@@ -583,7 +583,66 @@ func ruleRD1(c *Ctx) {
 				}
 			}
 		}
-		c.check(el0, fn, "takes-element-0", pos, "the claimed task is element 0 of the ready list", "the claimed task is not element 0 of readyTasks' result")
+		// ... or a prefix of it (`claim --count N`: ready[:n], or the whole list, handed on as a slice): every element
+		// access is at the constant 0 and every re-slicing keeps the front
+		if !el0 {
+			prefix, bad := false, false
+			seenV := map[ssa.Value]bool{}
+			var walk func(v ssa.Value, d int)
+			walk = func(v ssa.Value, d int) {
+				if v == nil || seenV[v] || d > 6 || v.Referrers() == nil {
+					return
+				}
+				seenV[v] = true
+				for _, r := range *v.Referrers() {
+					switch x := r.(type) {
+					case *ssa.IndexAddr:
+						if i, ok := constInt(x.Index); !ok || i != 0 {
+							// the element of a `for range` over this very slice: all of the prefix, front to back
+							inRange := false
+							if inc, ok := x.Index.(*ssa.BinOp); ok && inc.Op == token.ADD {
+								if ph, ok := inc.X.(*ssa.Phi); ok && rangeSliceOf(ph.Block()) == strip(v) {
+									inRange = true
+								}
+							}
+							if !inRange {
+								bad = true
+							}
+						}
+					case *ssa.Index:
+						if i, ok := constInt(x.Index); !ok || i != 0 {
+							bad = true
+						}
+					case *ssa.Slice:
+						if x.Low != nil {
+							if i, ok := constInt(x.Low); !ok || i != 0 {
+								bad = true
+							}
+						}
+						prefix = true
+						walk(x, d+1)
+					case *ssa.Phi:
+						walk(x, d+1)
+					case *ssa.Store:
+						if cell := cellOf(x.Addr); cell != nil && x.Val == v {
+							prefix = true
+							for _, ld := range cellLoads(cell) {
+								walk(ld, d+1)
+							}
+						}
+					case ssa.CallInstruction:
+						if cal := calleeOf(x.Common()); cal != nil && c.InModule(cal) {
+							prefix = true
+						}
+					}
+				}
+			}
+			walk(rtCall, 0)
+			if prefix && !bad {
+				el0 = true
+			}
+		}
+		c.check(el0, fn, "takes-element-0", pos, "the claimed task is element 0 of the ready list (or the claimed tasks are a prefix of it)", "the claimed task is not element 0 of readyTasks' result")
 		// empty list => no-ready error, before any emission
 		lenZero := edgesWhere(claimCb, func(a Atom, holds bool) bool {
 			if a.Kind != "const" || holds {
@@ -1293,47 +1352,7 @@ func ruleVD4(c *Ctx) {
 	}
 	// claim tables
 	var clears, mustUnclaimed, needsClaim, implicit, clearedInBuilder map[string]bool
-	if re := c.anchor("replayEvents"); re != nil {
-		clears = map[string]bool{}
-		replayFns := []*ssa.Function{re}
-		if rm := c.replay(); rm != nil {
-			replayFns = rm.EffectFns
-		}
-		for _, re := range replayFns {
-			eachInstr(re, func(r instrRef) {
-				st, ok := r.In.(*ssa.Store)
-				if !ok {
-					return
-				}
-				fa, ok := st.Addr.(*ssa.FieldAddr)
-				if !ok || fieldName(fa.X.Type(), fa.Field) != "ClaimedBy" || constStr(st.Val) != "" {
-					return
-				}
-				if s, isC := constString(st.Val); !isC || s != "" {
-					return
-				}
-				// constants of NewState equality edges that can lead here (directly, or as alternatives of a predicate helper)
-				for _, bf := range branchFacts(re) {
-					if !(bf.E.To() == r.Blk || reach(bf.E.To(), nil, nil)[r.Blk] && sameCase(bf.E.To(), r.Blk)) {
-						continue
-					}
-					atoms := []factAtom{{bf.A, bf.Holds}}
-					for _, alt := range bf.Alts {
-						atoms = append(atoms, alt...)
-					}
-					for _, fa := range atoms {
-						curEnv = fa.A.Env
-						if fa.A.Kind == "const" && fa.Holds {
-							if _, n, ok := fieldLoad(fa.A.X); ok && n == "NewState" {
-								clears[constStr(fa.A.C)] = true
-							}
-						}
-					}
-					curEnv = nil
-				}
-			})
-		}
-	}
+	clears = c.replayClearingStates()
 	if vci := c.anchor("validateClaimInvariant"); vci != nil {
 		mustUnclaimed, needsClaim = map[string]bool{}, map[string]bool{}
 		for _, r := range returnsOf(vci) {
@@ -1541,4 +1560,55 @@ func directCase(f *ssa.Function, e edge, blk *ssa.BasicBlock) bool {
 		}
 	}
 	return reach(e.To(), removed, nil)[blk]
+}
+
+// replayClearingStates: the NewState constants on whose equality edge replay stores "" into ClaimedBy
+// (nil when replay is not found).
+func (c *Ctx) replayClearingStates() map[string]bool {
+	re := c.anchor("replayEvents")
+	if re == nil {
+		return nil
+	}
+	clears := map[string]bool{}
+	{
+		replayFns := []*ssa.Function{re}
+		if rm := c.replay(); rm != nil {
+			replayFns = rm.EffectFns
+		}
+		for _, re := range replayFns {
+			eachInstr(re, func(r instrRef) {
+				st, ok := r.In.(*ssa.Store)
+				if !ok {
+					return
+				}
+				fa, ok := st.Addr.(*ssa.FieldAddr)
+				if !ok || fieldName(fa.X.Type(), fa.Field) != "ClaimedBy" || constStr(st.Val) != "" {
+					return
+				}
+				if s, isC := constString(st.Val); !isC || s != "" {
+					return
+				}
+				// constants of NewState equality edges that can lead here (directly, or as alternatives of a predicate helper)
+				for _, bf := range branchFacts(re) {
+					if !(bf.E.To() == r.Blk || reach(bf.E.To(), nil, nil)[r.Blk] && sameCase(bf.E.To(), r.Blk)) {
+						continue
+					}
+					atoms := []factAtom{{bf.A, bf.Holds}}
+					for _, alt := range bf.Alts {
+						atoms = append(atoms, alt...)
+					}
+					for _, fa := range atoms {
+						curEnv = fa.A.Env
+						if fa.A.Kind == "const" && fa.Holds {
+							if _, n, ok := fieldLoad(fa.A.X); ok && n == "NewState" {
+								clears[constStr(fa.A.C)] = true
+							}
+						}
+					}
+					curEnv = nil
+				}
+			})
+		}
+	}
+	return clears
 }
